@@ -661,7 +661,7 @@ const NSUB: usize = 16;
 
 pub fn run(ctx: &Ctx) -> i32 {
     let n = n_items(ctx.tier) * NSUB;
-    let (acc, crashes) = procpar::parent(ctx, n, ctx.tier.pick(40.0, 570.0), &[]);
+    let (acc, crashes) = procpar::parent(ctx, n, ctx.tier.pick(90.0, 1800.0), &[]);
     let mut report = Report::new();
     let c = |k: &str| acc.counters.get(k).copied().unwrap_or(0);
     report.evaluations = c("executions");
